@@ -620,43 +620,36 @@ func (fr *Frame) resolveNameAt(name string, li *loopInfo, at ssa.Instruction) (T
 			}
 		}
 	}
+	// reaching definition: walk the dominator chain upwards from the instruction; in each block the
+	// latest debug reference before the point wins, then a phi of that variable at the block's head
 	var best ssa.Value
-	var bestIns ssa.Instruction
-	for _, b := range fr.fn.Blocks {
-		for _, ins := range b.Instrs {
-			dr, ok := ins.(*ssa.DebugRef)
-			if !ok || dr.IsAddr {
-				continue
-			}
-			id, ok := dr.Expr.(*ast.Ident)
-			if !ok || id.Name != name {
-				continue
-			}
-			if _, known := fr.vals[dr.X]; !known {
-				if _, isConst := dr.X.(*ssa.Const); !isConst {
-					continue
+	usable := func(v ssa.Value) bool {
+		if _, known := fr.vals[v]; known {
+			return true
+		}
+		_, isConst := v.(*ssa.Const)
+		return isConst
+	}
+	for b, first := at.Block(), true; b != nil && best == nil; b, first = b.Idom(), false {
+		limit := len(b.Instrs)
+		if first {
+			for i, x := range b.Instrs {
+				if x == at {
+					limit = i
+					break
 				}
 			}
-			// the reference must come before "at" on every path: same block earlier, or a dominating block
-			if b == at.Block() {
-				before := false
-				for _, x := range b.Instrs {
-					if x == ins {
-						before = true
-						break
-					}
-					if x == at {
-						break
-					}
+		}
+		for i := limit - 1; i >= 0 && best == nil; i-- {
+			switch x := b.Instrs[i].(type) {
+			case *ssa.DebugRef:
+				if id, ok := x.Expr.(*ast.Ident); ok && id.Name == name && !x.IsAddr && usable(x.X) {
+					best = x.X
 				}
-				if !before {
-					continue
+			case *ssa.Phi:
+				if x.Comment == name && usable(x) {
+					best = x
 				}
-			} else if !b.Dominates(at.Block()) {
-				continue
-			}
-			if bestIns == nil || bestIns.Block().Dominates(b) {
-				best, bestIns = dr.X, ins
 			}
 		}
 	}
